@@ -167,7 +167,13 @@ Set_isdisjoint(Bucket* self, PyObject* other)
     int contained = 0;
 
     if (other == (PyObject*)self) {
-        if (self->len == 0) {
+        int empty;
+
+        /* self may be a ghost (len == 0) when the method is called unbound */
+        PER_USE_OR_RETURN(self, NULL);
+        empty = self->len == 0;
+        PER_UNUSE(self);
+        if (empty) {
             Py_RETURN_TRUE;
         }
         else {
